@@ -26,7 +26,7 @@ META = {
 
 UNIFYING = gen.PRESETS["unifying"]
 SHAPES = ["identical", "near_unanimous", "near_unanimous", "near_unanimous_incomplete", "near_unanimous_incomplete",
-          "incomplete", "complete", "cyclic", "cyclic_incomplete", "sparse_block"]
+          "incomplete", "complete", "cyclic", "cyclic_incomplete", "sparse_block", "singletons", "singletons"]
 
 
 def proportional(a, b, upto=6):
